@@ -123,7 +123,7 @@ def _kf_uri(pid, f, impl):
     if g.kind == "req-reparse":
         s = unhex(g.meta["stream"])
         line = s.split(b"\r\n", 1)[0].split(b" ")
-        return len(line) >= 2 and d8_target(line[1]) and ("field u" in f.what or "field t" in f.what)
+        return len(line) >= 2 and d8_target(line[1]) and ("field u" in f.what or "field t" in f.what or "RequestTargetUriInvalid" in f.what)
     return False
 
 
